@@ -177,6 +177,7 @@ Section Pass.
   Variable np_item : arr -> arr.
   Variable dtype_to_str : arr -> res nformat.
   Variable np_cast : nformat -> arr -> res arr.
+  Variable np_empty : nformat -> arr.
 
   (* numpy: `b > a` is `a < b` (same values, same dtype, same refusals) *)
   Hypothesis np_cmp_mirror : forall o a b, is_cmp o = true ->
@@ -188,16 +189,16 @@ Section Pass.
   Notation mkfield := (mkfield arr nformat).
   Notation outcome := (outcome arr nformat).
   Notation mkout := (mkout arr nformat).
-  Notation data_of := (data_of arr nformat).
+  Notation data_of := (data_of arr nformat np_empty).
   Notation kind_of := (kind_of arr nformat).
-  Notation run_binop := (run_binop arr nformat np_bin np_divmod np_un np_item dtype_to_str np_cast).
-  Notation run_unop := (run_unop arr nformat np_bin np_divmod np_un np_item dtype_to_str np_cast).
-  Notation spec_binop := (spec_binop arr nformat np_bin np_divmod dtype_to_str).
-  Notation spec_unop := (spec_unop arr nformat np_un dtype_to_str).
-  Notation exec_plan := (exec_plan arr nformat np_bin np_divmod np_un np_item dtype_to_str).
-  Notation finish := (finish arr nformat np_cast).
-  Notation df_setitem := (df_setitem arr nformat np_cast).
-  Notation df_store_all := (df_store_all arr nformat np_cast).
+  Notation run_binop := (run_binop arr nformat np_bin np_divmod np_un np_item dtype_to_str np_cast np_empty).
+  Notation run_unop := (run_unop arr nformat np_bin np_divmod np_un np_item dtype_to_str np_cast np_empty).
+  Notation spec_binop := (spec_binop arr nformat np_bin np_divmod dtype_to_str np_empty).
+  Notation spec_unop := (spec_unop arr nformat np_un dtype_to_str np_empty).
+  Notation exec_plan := (exec_plan arr nformat np_bin np_divmod np_un np_item dtype_to_str np_empty).
+  Notation finish := (finish arr nformat np_cast np_empty).
+  Notation df_setitem := (df_setitem arr nformat np_cast np_empty).
+  Notation df_store_all := (df_store_all arr nformat np_cast np_empty).
   Notation spec_state := (spec_state arr nformat dtype_to_str).
   Notation new_fields := (new_fields arr nformat dtype_to_str).
 
@@ -212,10 +213,10 @@ Section Pass.
 
   (* storing one fresh result field *)
   Lemma store_one (h:heap) r nf : dtype_to_str r = Ok nf ->
-    df_setitem (h ++ [mkfield NumericMem nf r]) (VField (length h)) =
-      Ok ((h ++ [mkfield NumericMem nf r]) ++ [mkfield NumericH5 nf r], VField (length h + 1)%nat).
+    df_setitem (h ++ [mkfield NumericMem nf (Some r)]) (VField (length h)) =
+      Ok ((h ++ [mkfield NumericMem nf (Some r)]) ++ [mkfield NumericH5 nf (Some r)], VField (length h + 1)%nat).
   Proof.
-    intros Hd. unfold Dispatch.df_setitem. rewrite nth_error_last. cbn [fo_nformat fo_data fo_cls h5_class].
+    intros Hd. unfold Dispatch.df_setitem. rewrite nth_error_last. cbn [fo_nformat fo_data fo_cls h5_class field_data].
     rewrite (np_cast_id r nf Hd). cbn [bind]. rewrite app_length. reflexivity.
   Qed.
 
@@ -234,17 +235,17 @@ Section Pass.
   Qed.
 
   Lemma store_two (h:heap) r1 nf1 r2 nf2 : dtype_to_str r1 = Ok nf1 -> dtype_to_str r2 = Ok nf2 ->
-    let h2 := (h ++ [mkfield NumericMem nf1 r1]) ++ [mkfield NumericMem nf2 r2] in
+    let h2 := (h ++ [mkfield NumericMem nf1 (Some r1)]) ++ [mkfield NumericMem nf2 (Some r2)] in
     df_store_all h2 [VField (length h); VField (length h + 1)%nat] =
-      Ok ((h2 ++ [mkfield NumericH5 nf1 r1]) ++ [mkfield NumericH5 nf2 r2],
+      Ok ((h2 ++ [mkfield NumericH5 nf1 (Some r1)]) ++ [mkfield NumericH5 nf2 (Some r2)],
           [VField (length h + 2)%nat; VField (length h + 3)%nat]).
   Proof.
     intros H1 H2 h2. subst h2. cbn [Dispatch.df_store_all]. unfold Dispatch.df_setitem.
     rewrite nth_error_app1 by (rewrite app_length; cbn; lia). rewrite nth_error_last.
-    cbn [fo_nformat fo_data fo_cls h5_class]. rewrite (np_cast_id r1 nf1 H1). cbn [bind].
+    cbn [fo_nformat fo_data fo_cls h5_class field_data]. rewrite (np_cast_id r1 nf1 H1). cbn [bind].
     rewrite nth_error_app1 by (rewrite !app_length; cbn; lia).
-    replace (length h + 1)%nat with (length (h ++ [mkfield NumericMem nf1 r1])) by (rewrite app_length; cbn; lia).
-    rewrite nth_error_last. cbn [fo_nformat fo_data fo_cls h5_class]. rewrite (np_cast_id r2 nf2 H2). cbn [bind].
+    replace (length h + 1)%nat with (length (h ++ [mkfield NumericMem nf1 (Some r1)])) by (rewrite app_length; cbn; lia).
+    rewrite nth_error_last. cbn [fo_nformat fo_data fo_cls h5_class field_data]. rewrite (np_cast_id r2 nf2 H2). cbn [bind].
     repeat rewrite app_length. cbn [length].
     replace (length h + 1 + 1 + 1)%nat with (length h + 3)%nat by lia.
     replace (length h + 1 + 1)%nat with (length h + 2)%nat by lia. reflexivity.
@@ -273,7 +274,7 @@ Section Pass.
 
   (* executing the direct plan = the specification *)
   Lemma exec_bin (h:heap) lhs rhs f store :
-    (do hr <- binary_op arr nformat np_bin dtype_to_str h lhs rhs f; finish store hr)
+    (do hr <- binary_op arr nformat np_bin dtype_to_str np_empty h lhs rhs f; finish store hr)
     = (do a <- data_of h lhs; do b <- data_of h rhs; do rs <- (do r <- np_bin f a b; Ok [r]); spec_state h rs store).
   Proof.
     unfold binary_op.
@@ -284,7 +285,7 @@ Section Pass.
   Qed.
 
   Lemma exec_divmod (h:heap) lhs rhs store :
-    (do hr <- numeric_divmod arr nformat np_divmod dtype_to_str h lhs rhs; finish store hr)
+    (do hr <- numeric_divmod arr nformat np_divmod dtype_to_str np_empty h lhs rhs; finish store hr)
     = (do a <- data_of h lhs; do b <- data_of h rhs;
        do rs <- (do qr <- np_divmod a b; let '(q, r) := qr in Ok [q; r]); spec_state h rs store).
   Proof.
@@ -343,7 +344,7 @@ Section Pass.
     unfold Dispatch.run_unop, DispatchSpec.spec_unop. cbn [Dispatch.kind_of Dispatch.data_of]. rewrite Hn. cbn [bind].
     rewrite (plan_unary T HT _ u Hs). cbn [bind Dispatch.exec_plan pick]. unfold unary_op.
     cbn [Dispatch.data_of]. rewrite Hn. cbn [bind].
-    destruct (np_un (npop_of_u u) (fo_data _ _ fo)) as [r| | |]; cbn [bind]; try reflexivity.
+    destruct (np_un (npop_of_u u) (field_data _ _ np_empty fo)) as [r| | |]; cbn [bind]; try reflexivity.
     rewrite <- finish_one. destruct (new_mem_field arr nformat dtype_to_str h r) as [[h1 v]| | |]; reflexivity.
   Qed.
 
@@ -364,7 +365,7 @@ Section Pass.
   Lemma new_fields_shape rs fs : new_fields rs = Ok fs ->
     length fs = length rs /\
     forall i r, nth_error rs i = Some r ->
-      exists nf, dtype_to_str r = Ok nf /\ nth_error fs i = Some (mkfield NumericMem nf r).
+      exists nf, dtype_to_str r = Ok nf /\ nth_error fs i = Some (mkfield NumericMem nf (Some r)).
   Proof.
     revert fs. induction rs as [|r rs IH]; intros fs H; cbn in H.
     - inversion H; subst. split; [reflexivity|]. intros [|i] r0 Hn; discriminate.
@@ -391,10 +392,10 @@ Section Pass.
     forall i r, nth_error rs i = Some r ->
       exists nf, dtype_to_str r = Ok nf /\
         nth_error (o_results _ _ out) i = Some (VField (length h + i)) /\
-        nth_error (o_heap _ _ out) (length h + i) = Some (mkfield NumericMem nf r) /\
+        nth_error (o_heap _ _ out) (length h + i) = Some (mkfield NumericMem nf (Some r)) /\
         (store = true ->
            nth_error (o_stored _ _ out) i = Some (VField (length h + length rs + i)) /\
-           nth_error (o_heap _ _ out) (length h + length rs + i) = Some (mkfield NumericH5 nf r)).
+           nth_error (o_heap _ _ out) (length h + length rs + i) = Some (mkfield NumericH5 nf (Some r))).
   Proof.
     unfold DispatchSpec.spec_state. intros H.
     destruct (new_fields rs) as [fs| | |] eqn:Hf; cbn in H; try discriminate. inversion H; subst; clear H.
